@@ -45,6 +45,7 @@ def gen_cases(tier, seed):
                           "_cost": 8 if i % 10 == 3 else 4 if i % 5 == 0 else 1})
         for a in atlas(6):
             cases.append({"atlas": a, "seed": seed})
+        cases.append({"kind": "repo-tests", "seed": seed, "_cost": 100})
     return cases
 
 
@@ -93,6 +94,14 @@ def one_run(res, edges, m0, tap, ctx):
 
 
 def run_case(case):
+    if case.get("kind") == "repo-tests":
+        from ..repotests import run as _run_repo_tests
+        res = Result()
+        _run_repo_tests(ID, res)
+        res.nontrivial = True
+        res.digest = "repo-tests"
+        res.sample = {"kind": "repo-tests", "notes": res.notes[:2]}
+        return res
     res = Result()
     rng = random.Random(case["seed"] if "atlas" not in case else case["atlas"] * 7 + case["seed"])
     if "atlas" in case:
